@@ -14,6 +14,7 @@ import (
 	"sync"
 	"sync/atomic"
 	"time"
+	"unsafe"
 
 	"github.com/samsarahq/thunder/reactive"
 	"pgregory.net/rapid"
@@ -85,6 +86,9 @@ type Case struct {
 	Spawn     bool     `json:"spawn"`              // alwaysSpawnGoroutine
 	Foreign   bool     `json:"foreign,omitempty"`  // probe an unrelated AddDependency at quiescence
 	DelayUs   int      `json:"delay_us,omitempty"` // reactive.WriteThenReadDelay for this case
+	// ReleaseGapUs: pause at the yield site between "this dependency has no dependents left"
+	// and its release (a registration may land in between)
+	ReleaseGapUs int `json:"release_gap_us,omitempty"`
 }
 
 type resInfo struct {
@@ -93,6 +97,24 @@ type resInfo struct {
 	cleaned int32
 	// exitsAtCleanup: how many runs (of any rerunner) had completed when the cleanup ran
 	exitsAtCleanup int64
+	// cleanedSeq: value of the machine's event counter when the cleanup ran (0 = not yet)
+	cleanedSeq int64
+	// releasedSeq: value of the event counter when thunder marked the resource's node released
+	// (hook H8; stamped under the node's lock, so a registration that completed earlier has a
+	// smaller stamp). res keeps the resource - and so its address - alive while the machine runs.
+	releasedSeq int64
+	res         *reactive.Resource
+	m           *Machine
+}
+
+// resByAddr: address of a live resource -> its resInfo, for the hook
+var resByAddr sync.Map
+
+// reg: a registration made by a run itself, stamped with the event counter after
+// AddDependency returned
+type reg struct {
+	info *resInfo
+	seq  int64
 }
 
 type slot struct {
@@ -111,6 +133,7 @@ type Machine struct {
 	runners    []*runner
 	hits       Hits
 	exitsTotal int64 // completed runs of all rerunners
+	seq        int64 // event counter (registrations and cleanups)
 }
 
 // Hits counts the interesting interleavings that actually happened.
@@ -146,6 +169,19 @@ type runner struct {
 	childRuns     map[int]int
 	violation     string
 	preCancelled  bool
+	// resources the run in progress / the last successful run registered itself (not through
+	// cached children): they hang on that run's computation
+	curRegs, lastRegs []reg
+}
+
+func (rn *runner) registered(run int, info *resInfo) {
+	if run == -1 {
+		return
+	}
+	sq := atomic.AddInt64(&rn.m.seq, 1)
+	rn.mu.Lock()
+	rn.curRegs = append(rn.curRegs, reg{info, sq})
+	rn.mu.Unlock()
 }
 
 // totals: run entries and exits over all rerunners.
@@ -164,8 +200,11 @@ func (m *Machine) newRes(s *slot) {
 	m.allRes = append(m.allRes, info)
 	m.resMu.Unlock()
 	r := reactive.NewResource()
+	info.res, info.m = r, m
+	resByAddr.Store(uintptr(unsafe.Pointer(r)), info)
 	r.Cleanup(func() {
 		atomic.StoreInt64(&info.exitsAtCleanup, atomic.LoadInt64(&m.exitsTotal))
+		atomic.StoreInt64(&info.cleanedSeq, atomic.AddInt64(&m.seq, 1))
 		atomic.AddInt32(&info.cleaned, 1)
 	})
 	s.res, s.info = r, info
@@ -215,6 +254,7 @@ func (m *Machine) read(ctx context.Context, rd Read, seen map[int]int, rn *runne
 		s.mu.Unlock()
 		atomic.AddInt32(&info.added, 1)
 		reactive.AddDependency(ctx, r, nil)
+		rn.registered(run, info)
 		fireMid()
 		s.mu.Lock()
 		v := s.version
@@ -228,6 +268,7 @@ func (m *Machine) read(ctx context.Context, rd Read, seen map[int]int, rn *runne
 			s.mu.Unlock()
 			atomic.AddInt32(&info2.added, 1)
 			reactive.AddDependency(ctx, r2, nil)
+			rn.registered(run, info2)
 			v = v2
 			_ = r2
 		}
@@ -240,6 +281,7 @@ func (m *Machine) read(ctx context.Context, rd Read, seen map[int]int, rn *runne
 	fireMid()
 	atomic.AddInt32(&info.added, 1)
 	reactive.AddDependency(ctx, r, nil)
+	rn.registered(run, info)
 	seen[rd.Slot%len(m.slots)] = v
 }
 
@@ -295,6 +337,9 @@ func (rn *runner) compute(ctx context.Context) (interface{}, error) {
 	}
 	rn.mu.Unlock()
 	run := int(atomic.AddInt32(&rn.runs, 1))
+	rn.mu.Lock()
+	rn.curRegs = nil
+	rn.mu.Unlock()
 	if rn.comp.PurgeOnRun == run {
 		atomic.AddInt32(&m.hits.Purge, 1)
 		reactive.PurgeCache(ctx)
@@ -375,6 +420,7 @@ func (rn *runner) compute(ctx context.Context) (interface{}, error) {
 	}
 	rn.mu.Lock()
 	rn.lastSeen, rn.lastOK = seen, run
+	rn.lastRegs = rn.curRegs
 	rn.mu.Unlock()
 	return nil, nil
 }
@@ -384,13 +430,34 @@ var yieldState struct {
 	plan []int
 	hits int
 	on   bool
+	gap  int
+	// decided, when set, is closed at the first hit of the site release.decided
+	decided chan struct{}
 }
 
 func init() {
+	reactive.VerifReleased = func(addr uintptr) {
+		if v, ok := resByAddr.Load(addr); ok {
+			info := v.(*resInfo)
+			atomic.StoreInt64(&info.releasedSeq, atomic.AddInt64(&info.m.seq, 1))
+		}
+	}
 	reactive.VerifYield = func(site string) {
 		yieldState.mu.Lock()
 		if !yieldState.on {
 			yieldState.mu.Unlock()
+			return
+		}
+		if site == "release.decided" {
+			g := yieldState.gap
+			if yieldState.decided != nil {
+				close(yieldState.decided)
+				yieldState.decided = nil
+			}
+			yieldState.mu.Unlock()
+			if g > 0 {
+				time.Sleep(time.Duration(g) * time.Microsecond)
+			}
 			return
 		}
 		k := yieldState.hits
@@ -424,11 +491,18 @@ func Run(c Case, checkCleanup bool) (Result, string, error) {
 	// Stop, write or cancel may land inside it
 	reactive.WriteThenReadDelay = time.Duration(c.DelayUs) * time.Microsecond
 	yieldState.mu.Lock()
-	yieldState.plan, yieldState.hits, yieldState.on = c.Yields, 0, true
+	yieldState.plan, yieldState.hits, yieldState.on, yieldState.gap = c.Yields, 0, true, c.ReleaseGapUs
 	yieldState.mu.Unlock()
 	defer func() { yieldState.mu.Lock(); yieldState.on = false; yieldState.mu.Unlock() }()
 
 	m := &Machine{c: c}
+	defer func() {
+		m.resMu.Lock()
+		for _, in := range m.allRes {
+			resByAddr.Delete(uintptr(unsafe.Pointer(in.res)))
+		}
+		m.resMu.Unlock()
+	}()
 	for i := 0; i < c.NSlots; i++ {
 		s := &slot{strobe: i < len(c.Strobe) && c.Strobe[i]}
 		m.newRes(s)
@@ -555,6 +629,38 @@ func Run(c Case, checkCleanup bool) (Result, string, error) {
 	}
 	if stale != "" {
 		return res, "stale", errors.New(stale)
+	}
+	// A resource's cleanup runs after the last computation depending on it is superseded or
+	// stopped, not before: what the current computation of a live rerunner registered itself
+	// has not been cleaned up. (Checked on rerunners that are at rest, and only if they still
+	// are afterwards.)
+	for _, rn := range m.runners {
+		if !checkCleanup {
+			break // (a statement of C08; the C04 runs share this machine)
+		}
+		rn.mu.Lock()
+		exempt := rn.stopped || rn.failed || rn.preCancelled || cancelled[rn.idx]
+		regs, ok0 := rn.lastRegs, rn.lastOK
+		rn.mu.Unlock()
+		e0 := atomic.LoadInt32(&rn.entries)
+		if exempt || e0 != atomic.LoadInt32(&rn.exits) {
+			continue
+		}
+		// (a resource that had been let go before this run registered it - the harness keeps
+		// strobed slots on one resource - is not at issue: only one that was marked released
+		// after the registration had completed)
+		var early *resInfo
+		for _, rg := range regs {
+			if rs := atomic.LoadInt64(&rg.info.releasedSeq); rs > rg.seq {
+				early = rg.info
+			}
+		}
+		rn.mu.Lock()
+		same := rn.lastOK == ok0 && !rn.stopped && !rn.failed
+		rn.mu.Unlock()
+		if early != nil && same && atomic.LoadInt32(&rn.entries) == e0 {
+			return res, "early-cleanup", fmt.Errorf("resource %d was released (and its cleanup run) after the current computation of rerunner %d (its run #%d, not superseded, not stopped) had registered it", early.id, rn.idx, ok0)
+		}
 	}
 	// A registration that does not belong to any live computation (AddDependency on a context
 	// without rerunner, e.g. from a request that is not reactive) on a resource that live
@@ -788,6 +894,7 @@ func Gen(t *rapid.T, cacheDepth int, hooks bool) Case {
 	}
 	c.Foreign = rapid.Bool().Draw(t, "foreign")
 	c.DelayUs = rapid.SampledFrom([]int{0, 0, 0, 300, 2000}).Draw(t, "delayus")
+	c.ReleaseGapUs = rapid.SampledFrom([]int{0, 0, 100, 500}).Draw(t, "releasegapus")
 	na := rapid.IntRange(2, 30).Draw(t, "nactions")
 	for i := 0; i < na; i++ {
 		a := Action{Kind: rapid.SampledFrom([]string{"write", "write", "write", "write", "pause", "pause", "rerun", "stop", "cancel"}).Draw(t, "akind")}
@@ -816,4 +923,60 @@ func Describe(c Case) string {
 	var b strings.Builder
 	fmt.Fprintf(&b, "slots=%d strobe=%v runners=%d actions=%d yields=%d", c.NSlots, c.Strobe, len(c.Comps), len(c.Actions), len(c.Yields))
 	return b.String()
+}
+
+// ReleaseRaceProbe drives the smallest history of the release race repaired by 6fec84d with
+// the plain API: a run registers a resource and fails with the retry sentinel; its computation
+// is released on a goroutine, which observes the resource without dependents and pauses at the
+// yield site release.decided while the retry registers the same resource. Returns the event
+// stamps of the retry's registration and of the resource being marked released (0 = never)
+// and whether the cleanup ran, all taken before the rerunner is stopped.
+func ReleaseRaceProbe(gapUs int) (regSeq, releasedSeq int64, cleaned bool) {
+	reactive.WriteThenReadDelay = 0
+	yieldState.mu.Lock()
+	decided := make(chan struct{})
+	yieldState.plan, yieldState.hits, yieldState.on, yieldState.gap, yieldState.decided = nil, 0, true, gapUs, decided
+	yieldState.mu.Unlock()
+	defer func() { yieldState.mu.Lock(); yieldState.on, yieldState.decided = false, nil; yieldState.mu.Unlock() }()
+	m := &Machine{}
+	r := reactive.NewResource()
+	info := &resInfo{res: r, m: m}
+	resByAddr.Store(uintptr(unsafe.Pointer(r)), info)
+	defer resByAddr.Delete(uintptr(unsafe.Pointer(r)))
+	r.Cleanup(func() { atomic.AddInt32(&info.cleaned, 1) })
+	var runs int32
+	var reg2 int64
+	first, second := make(chan struct{}), make(chan struct{})
+	rr := reactive.NewRerunner(context.Background(), func(ctx context.Context) (interface{}, error) {
+		n := atomic.AddInt32(&runs, 1)
+		if n > 2 {
+			return nil, nil // later runs (after a wrongful invalidation) leave the resource alone
+		}
+		if n == 2 {
+			// the retry registers while the release goroutine of the failed run sits between
+			// its observation "no dependents left" and the release
+			select {
+			case <-decided:
+			case <-time.After(200 * time.Millisecond):
+			}
+		}
+		reactive.AddDependency(ctx, r, nil)
+		if n == 1 {
+			close(first)
+			return nil, reactive.RetrySentinelError
+		}
+		atomic.StoreInt64(&reg2, atomic.AddInt64(&m.seq, 1))
+		close(second)
+		return nil, nil
+	}, 0, false)
+	<-first
+	rr.RerunImmediately() // the retry does not wait out its back-off
+	select {
+	case <-second:
+	case <-time.After(5 * time.Second):
+	}
+	time.Sleep(time.Duration(gapUs)*time.Microsecond + 3*time.Millisecond)
+	regSeq, releasedSeq, cleaned = atomic.LoadInt64(&reg2), atomic.LoadInt64(&info.releasedSeq), atomic.LoadInt32(&info.cleaned) > 0
+	rr.Stop()
+	return
 }
